@@ -128,7 +128,38 @@ def make_self(c):
 
     hashable = lambda t: U.is_node(t, PATH_KINDS)
     gm = GhostMap(c["R_has"], c["R_get"], hashable=hashable, on_get=on_get)
-    return lambda path: Obj(REWRITER, {"replacements": gm, "field_aliases": Sym(U.fresh("aliases"))})
+    # fields the constructor stores besides the two of the model: a handler that reads one is outside the contract (undecided,
+    # never a violation); the bounded pipeline family runs the real constructor
+    extra = init_written_fields(E.facts) - set(MODEL_FIELDS)
+    return lambda path: Obj(REWRITER, {"replacements": gm, "field_aliases": Sym(U.fresh("aliases"))}, unmodelled=extra)
+
+
+MODEL_FIELDS = ("replacements", "field_aliases")
+
+
+def _self_attr_names(source, store):
+    import ast as pyast
+    import textwrap
+    out = set()
+    for n in pyast.walk(pyast.parse(textwrap.dedent(source))):
+        if isinstance(n, pyast.Attribute) and isinstance(n.value, pyast.Name) and n.value.id == "self" and \
+                isinstance(n.ctx, pyast.Store if store else pyast.Load):
+            out.add(n.attr)
+    return out
+
+
+def init_written_fields(facts):
+    """instance fields assigned by AliasRewriter.__init__ (MRO-resolved source of the tree under check)"""
+    m = facts.classes[REWRITER]["members"].get("__init__")
+    return _self_attr_names(m["source"], True) if m and m.get("source") else set()
+
+
+def fields_read_by_members(facts):
+    out = set()
+    for name, m in facts.classes[REWRITER]["members"].items():
+        if name != "__init__" and m.get("source") and str(m.get("definer", "")).startswith("odata_query."):
+            out |= _self_attr_names(m["source"], False)
+    return out
 
 
 def known_regions(c, kind, node):
@@ -150,8 +181,8 @@ def known_regions(c, kind, node):
 
 
 def families(facts):
-    fams = ["cfg"] + [f"visit[{k}]" for k in facts.kinds]
-    fams += ["lemma.identity.seq"] + [f"lemma.identity[{k}]" for k in facts.kinds] + ["canary"]
+    fams = ["cfg", "init.table"] + [f"visit[{k}]" for k in facts.kinds]
+    fams += ["lemma.identity.seq"] + [f"lemma.identity[{k}]" for k in facts.kinds] + ["bounded.pipeline", "canary"]
     return fams
 
 
@@ -162,6 +193,10 @@ def run_family(facts, fam, tier):
         return [{"name": "C14:odata_query.ast:cfg.shape", "clause": "cfg.shape",
                  "status": "discharged" if not probs else "undecided", "seconds": 0.0,
                  "reason": "; ".join(probs) or "ast classes match the shape table", "backend": "finite-check"}]
+    if fam == "init.table":
+        return init_table(facts, timeout)
+    if fam == "bounded.pipeline":
+        return bounded_pipeline(facts, tier)
     c = build(facts)
     E, U, PV = c["E"], c["U"], c["PV"]
     install(c)
@@ -233,26 +268,16 @@ def run_family(facts, fam, tier):
     raise ValueError(fam)
 
 
-def replay_spec(facts, r):
-    w = r.get("witness") or {}
-    if "e" not in w:
-        return None
-    # the ghost table of the counter-model is not decoded key by key: replay with the table that
-    # maps every identifier/path occurring in e that the model marks as a key; fall back to e itself
-    es = to_py_source(w["e"])
-    from contracts.native_ref import NATIVE_REF
-    script = NATIVE_REF + f"""
-import json, copy
+NATIVE_SUBST = r"""
+import json, copy, dataclasses
 from odata_query import ast
 from odata_query.rewrite import AliasRewriter
 from odata_query.grammar import ODataLexer, ODataParser
-try:
-    witness = [sanitize({es})]
-except Exception:
-    witness = []
-BATTERY = ["a eq 1", "'x' in (a, b/c, 1)", "(a,) eq b", "contains(concat(a, b/c), 'x')", "a/b/c eq b/c",
-           "items/any(x: x/price gt a and x/q in (a, b))", "not (a add b/c lt -a)", "f.g(p=a, q=(a, b))"]
-trees = witness + [ODataParser().parse(ODataLexer().tokenize(t)) for t in BATTERY]
+
+
+def P(text):
+    return ODataParser().parse(ODataLexer().tokenize(text))
+
 
 def subst(R, B, e):
     # independent substitution (property statement)
@@ -274,8 +299,7 @@ def subst(R, B, e):
         return ast.NamedParam(e.name, subst(R, B, e.param))
     if isinstance(e, ast.Lambda):
         return ast.Lambda(e.identifier, subst(R, B + [e.identifier], e.expression))
-    import dataclasses
-    kw = {{}}
+    kw = {}
     for f in dataclasses.fields(e):
         v = getattr(e, f.name)
         if isinstance(v, list):
@@ -286,17 +310,17 @@ def subst(R, B, e):
             kw[f.name] = v
     return type(e)(**kw)
 
+
 def subst_code_known(key, target, e):
     # what the recorded findings predict: like subst, but Call.func / NamedParam.name / Lambda.identifier and
     # uses of lambda variables are substituted too
-    import dataclasses
     if isinstance(e, ast.Identifier):
         return target if e == key else e
     if isinstance(e, ast.Attribute):
         if e == key:
             return target
         return ast.Attribute(subst_code_known(key, target, e.owner), e.attr)
-    kw = {{}}
+    kw = {}
     for f in dataclasses.fields(e):
         v = getattr(e, f.name)
         if isinstance(v, list):
@@ -307,8 +331,8 @@ def subst_code_known(key, target, e):
             kw[f.name] = v
     return type(e)(**kw)
 
+
 def refs(e, acc):
-    import dataclasses
     if isinstance(e, (ast.Identifier, ast.Attribute)):
         acc.append(e)
     if dataclasses.is_dataclass(e):
@@ -319,32 +343,148 @@ def refs(e, acc):
                     refs(x, acc)
     return acc
 
-target = ast.Call(ast.Identifier('tgt', ('ns',)), [])
-KNOWN_REGION = lambda key, e: False
+
+TARGET_TEXT = "ns.tgt()"
+TARGET = ast.Call(ast.Identifier('tgt', ('ns',)), [])
+
+
+def run_one(key, e):
+    # the REAL constructor builds the table from text; -> None or a description of the deviation
+    ktext = ref_render(key)
+    try:
+        if P(ktext) != key or P(TARGET_TEXT) != TARGET:
+            return None                      # not expressible as alias text: outside the statement
+    except Exception:
+        return None
+    before = copy.deepcopy(e)
+    try:
+        rw = AliasRewriter({ktext: TARGET_TEXT})
+        got = rw.visit(e)
+        err = None
+    except Exception as ex:
+        got, err = None, type(ex).__name__ + ': ' + str(ex)
+    exp = subst({key: TARGET}, [], e)
+    if err or got != exp or e != before:
+        # recorded findings (function / parameter / lambda-variable names that are alias keys) are not re-reported
+        if err is None and e == before and got == subst_code_known(key, TARGET, e):
+            return None
+        return {'alias': {ktext: TARGET_TEXT}, 'tree': ref_render(e)[:200], 'got': repr(got)[:300], 'expected': repr(exp)[:300],
+                'error': err, 'mutated': e != before}
+    return None
+
+
+def keys_for(e):
+    # alias keys tried for a tree: every reference in it, and near misses of each (bare / namespaced / prefix / last segment)
+    out = []
+    for k in refs(e, []):
+        out.append(k)
+        if isinstance(k, ast.Identifier):
+            out.append(ast.Identifier(k.name, ()) if k.namespace else ast.Identifier(k.name, ('zz',)))
+            out.append(ast.Identifier(k.name.upper(), k.namespace))
+        else:
+            out.append(k.owner)
+            out.append(ast.Identifier(k.attr, ()))
+            out.append(ast.Attribute(k, 'more'))
+    seen, uniq = set(), []
+    for k in out:
+        if repr(k) not in seen:
+            seen.add(repr(k))
+            uniq.append(k)
+    return uniq
+"""
+
+BATTERY = ["a eq 1", "'x' in (a, b/c, 1)", "(a,) eq b", "contains(concat(a, b/c), 'x')", "a/b/c eq b/c",
+           "items/any(x: x/price gt a and x/q in (a, b))", "not (a add b/c lt -a)", "f.g(p=a, q=(a, b))",
+           "contoso.name eq name", "name eq 'name' and author/name eq n.name", "geo.length(route) gt length(name)",
+           "ns.author/name eq author/name", "a/b eq b and a eq a/b/c", "x/any(a: a/b eq b) and a/b eq 1",
+           "Name eq name and NAME eq 'name'", "items/all(i: i/tags/any(t: t eq a/b or i/a eq a))"]
+
+
+def replay_spec(facts, r):
+    if r.get("bounded") and r.get("native_script"):
+        return {"native_script": r["native_script"], "input_text": r.get("bound"), "required": "AliasRewriter(R).visit(e) == subst(R, [], e)"}
+    w = r.get("witness") or {}
+    if "e" not in w:
+        return None
+    # the ghost table of the counter-model is not decoded key by key: replay with every single-key table whose key is an
+    # identifier/path occurring in e, built by the real constructor from alias text
+    es = to_py_source(w["e"])
+    from contracts.native_ref import NATIVE_REF
+    script = NATIVE_REF + NATIVE_SUBST + f"""
+try:
+    witness = [sanitize({es})]
+except Exception:
+    witness = []
+trees = witness + [P(t) for t in {BATTERY[:8]!r}]
 found = None
 for e in trees:
     for key in refs(e, []):
-        rw = AliasRewriter({{}})
-        rw.replacements = {{key: target}}
-        before = copy.deepcopy(e)
-        try:
-            got = rw.visit(e)
-            err = None
-        except Exception as ex:
-            got, err = None, type(ex).__name__ + ': ' + str(ex)
-        exp = subst({{key: target}}, [], e)
-        if err or got != exp or e != before:
-            # recorded findings (function / parameter / lambda-variable names that are alias keys) are not re-reported
-            code = subst_code_known(key, target, e)
-            if err is None and e == before and got == code:
-                continue
-            found = {{'key': repr(key), 'tree': repr(e)[:200], 'got': repr(got)[:300], 'expected': repr(exp)[:300], 'error': err, 'mutated': e != before}}
+        found = run_one(key, e)
+        if found:
             break
     if found:
         break
 print(json.dumps({{'violates': found is not None, 'detail': found}}))
 """
     return {"native_script": script, "input_text": f"e={es}", "required": "AliasRewriter(R).visit(e) == subst(R, [], e)"}
+
+
+def bounded_script(filters):
+    from contracts.native_ref import NATIVE_REF
+    return NATIVE_REF + NATIVE_SUBST + f"""
+bad, ran = [], 0
+for t in {filters!r}:
+    e = P(t)
+    for key in keys_for(e):
+        ran += 1
+        d = run_one(key, e)
+        if d:
+            bad.append(d)
+print(json.dumps({{'violates': bool(bad), 'problems': bad[:5], 'count': len(bad), 'ran': ran}}))
+"""
+
+
+def bounded_pipeline(facts, tier):
+    """Bounded stand-in (labelled, never counted): the REAL constructor builds the table from alias text, the real visitor
+    rewrites the battery's trees; compared with the independent substitution.  Covers what the handler contracts assume of
+    __init__ beyond init.table: fields derived from the table, key normalisation, parser reuse."""
+    import time
+    from vc.runner import native_run
+    t0 = time.time()
+    script = bounded_script(BATTERY)
+    nat = native_run(script, timeout=600)
+    name = "C14:pipeline:bounded"
+    if "problems" not in nat:
+        return [{"name": name, "clause": "bounded", "bounded": True, "status": "undecided", "seconds": time.time() - t0,
+                 "reason": str(nat)[:300], "bound": "native run failed"}]
+    ok = not nat["violates"]
+    return [{"name": name, "clause": "bounded", "bounded": True, "status": "discharged" if ok else "refuted", "seconds": time.time() - t0,
+             "backend": "real AliasRewriter(field_aliases) vs independent substitution (bounded, not a proof)",
+             "bound": f"{len(BATTERY)} filters x every reference in them and its near misses as the single alias key ({nat['ran']} runs)",
+             "reason": "rewritten tree equals subst(R, [], e) in every run" if ok else str(nat["problems"][:2])[:400],
+             "solver_output": str(nat["problems"][:3])[:800], "native_script": script}]
+
+
+def init_table(facts, timeout):
+    """Contract of AliasRewriter.__init__ (what the handler contracts assume of `self`):  replacements = {P(k): P(v)} with P the
+    supplied-or-fresh parser over the supplied-or-fresh lexer (term comparison, shared with C20 init.instances), and no further
+    field that a handler reads."""
+    import time
+    from contracts import C20
+    from contracts import grammar_common as G
+    t0 = time.time()
+    c2 = G.build(facts)
+    fs = set()
+    out = C20.init_instances(c2, facts, timeout, t0, prefix="C14", clause="init.table", fields=fs)
+    fs |= init_written_fields(facts)
+    extra = sorted(fs - set(MODEL_FIELDS))
+    read = sorted(set(extra) & fields_read_by_members(facts))
+    r = {"name": f"C14:{REWRITER}.__init__:init.fields", "clause": "init.fields", "seconds": time.time() - t0, "backend": "finite-check",
+         "status": "discharged" if not read else "undecided",
+         "reason": (f"the constructor stores {sorted(fs)}; handlers read only the modelled fields {list(MODEL_FIELDS)}" if not read else
+                    f"the constructor also stores {read}, which handlers read: its relation to the alias table is outside the contract "
+                    "(bounded.pipeline runs the real constructor)")}
+    return out + [r]
 
 
 def evidence(facts, results):
